@@ -268,7 +268,8 @@ def handle(ctx, results, cases, verdicts, kinds):
 
 def run(ctx):
     ctx.rule = ("a history is non-trivial when it contains two calls to one function with different arguments "
-                "(parameters, dtype or backend); distinct by (thread count, sequence of calls)")
+                "(parameters, dtype or backend); distinct by (thread count, sequence of calls); alphabet rule: every "
+                "parameter of every function varies alone in some pair of calls")
     ctx.assumptions = [
         "results are compared by sha1 of dtype + shape + raw bytes of the computed values, plus coordinates, attributes, name",
         "the fresh-interpreter reference runs each distinct call alone in its own process with 1 Numba / dask thread",
@@ -546,8 +547,11 @@ META = {
                  "validated by TLC against the same step operator; repeated under 4 and 16 threads",
     "level_text": "TLC model-checks History.tla over every history up to length 3-4 of a full product alphabet "
                   "(ResultIsFresh, HiddenStateFrozen, JitOnlyGrows, RepeatIdempotent, DefaultIsExplicit; five broken "
-                  "designs rejected). TLC then generates histories over 44 (quick) / 89 (thorough) concrete calls built to "
-                  "collide (simulation; thorough: also all ordered pairs of 12 calls); each is replayed in one process of the real library "
+                  "designs rejected). Alphabet rule: for every public function and every parameter two calls differ in exactly "
+                  "that parameter (254 calls); A,B,A / B,A,B schedules with strict first-call references are replayed in 11 "
+                  "warm interpreters, float reductions under NUMBA_NUM_THREADS / set_num_threads in {1,2,4,16}; thorough "
+                  "adds TLC-generated long histories over 89 colliding calls with one-call-per-interpreter references "
+                  "(simulation; all ordered pairs of 12 calls); each is replayed in one process of the real library "
                   "logging result digest, defaults, module tables, JIT signature counts after every call; "
                   "History_Trace.tla judges each step against the fresh-interpreter digest and the frozen hidden state; "
                   "a subset is repeated with 4 and 16 Numba/dask threads. Histories are sampled, not exhaustive.",
